@@ -74,12 +74,51 @@ def load_known() -> Dict[str, list]:
     return data
 
 
+_ORDINAL = re.compile(r"#\d+")
+
+
 def known_match(prop: str, ob: Ob, known: list) -> Optional[dict]:
+    """exact identity: (property, rule, function, key, code)"""
     for k in known:
         if k.get("rule") == ob.rule and k.get("where") == ob.where and k.get("key") == ob.key and prop in k.get("properties", [k.get("property")]) \
                 and ("code" not in k or k["code"] == ob.code):
             return k
     return None
+
+
+def partition_known(violations: Sequence[Ob], known: list, props_for) -> Tuple[List[Ob], List[Ob]]:
+    """(matched, unlisted).  A listed finding is identified by (property, rule, function, key, code).  `code` names the failing construct itself
+    (which einsum, which flag, which slice); where an entry carries one, the running number inside the key (`#3`: third such site of the function)
+    may differ – re-ordering or merging blocks of a function re-numbers its sites without changing the defect.  That relaxed match is one-to-one:
+    every listed entry excuses at most one violation, and only entries that were not matched exactly take part – a second site that now
+    shows the same code as a listed one is still reported."""
+    matched: List[Ob] = []
+    rest: List[Ob] = []
+    used = set()
+    for o in violations:
+        k = next((kk for p in props_for(o) for kk in [known_match(p, o, known)] if kk is not None), None)
+        if k is not None:
+            used.add(id(k))
+            matched.append(o)
+        else:
+            rest.append(o)
+    unlisted: List[Ob] = []
+    for o in rest:
+        hit = None
+        for k in known:
+            if id(k) in used or not k.get("code") or k.get("rule") != o.rule or k.get("where") != o.where or k["code"] != o.code:
+                continue
+            if not any(p in k.get("properties", [k.get("property")]) for p in props_for(o)):
+                continue
+            if _ORDINAL.sub("", k.get("key", "")) == _ORDINAL.sub("", o.key):
+                hit = k
+                break
+        if hit is not None:
+            used.add(id(hit))
+            matched.append(o)
+        else:
+            unlisted.append(o)
+    return matched, unlisted
 
 
 def write_evidence(prop: str, tier: str, seed: int, obs: Sequence[Ob], violations: Sequence[Ob], known_hits: Sequence[Ob],
